@@ -29,7 +29,7 @@ PROPS = {
     ),
     "C04": dict(
         props_files=["Avfs/Props/C04.lean", "Avfs/Props/C04_links.lean"],
-        parts=[dict(name="memfs"), dict(name="kernel-links"), dict(name="path", tags="verif,avfs_setostype")],
+        parts=[dict(name="memfs"), dict(name="memfs-small", args=["-scn", "namespace,link-budget"]), dict(name="kernel-links"), dict(name="path", tags="verif,avfs_setostype")],
         trusted=MODEL_TRUST + ["oracle: the Linux kernel and filepath.EvalSymlinks in a chroot-ed child on tmpfs"],
         assumptions=["link chains up to 42 around the budget of 40; random relative / absolute / dangling / cyclic targets"],
         not_yet_proved=["searchNode ≃ namei (structural kernel-style resolution) — the equality with the kernel is carried by the oracle run", "follow-mode never returns a link; readlink (symlink t n) = clean t as theorems"],
